@@ -40,7 +40,8 @@ REQUIRED = ["at_most_once_atomic", "at_most_one_success_atomic", "at_most_one_su
             "preauth_honoured_only_if_live_and_own", "preauth_dead_code_issues_nothing", "handleLanding_refines_thread", "landing_page_at_most_once_all_schedules",
             # round 3: the remaining iam burn handlers as threads (Props/C05Ref.lean)
             "validateNonce_refines_threads", "vp_response_at_most_once_all_schedules", "handleReqObj_refines_thread", "request_object_at_most_once_all_schedules",
-            "every_endpoint_refines_its_threads", "any_endpoints_at_most_once_all_schedules"]
+            "every_endpoint_refines_its_threads", "any_endpoints_at_most_once_all_schedules",
+            "handlePreAuth_refines_thread", "preauth_at_most_once_all_schedules"]
 
 
 def oracle(op, line, facts):
@@ -235,7 +236,7 @@ def forms_oracle(op, line, facts):
 def vforms_oracle(op, line, facts):
     """direct oracle on a sequence of issuing calls / token requests served by the real OpenID4VCI issuer (op "vforms")"""
     bad = []
-    m = re.match(r"vforms ans=(.*) live=\[(.*)\] at=\[(.*)\] cn=\[(.*)\]$", line)
+    m = re.match(r"vforms ans=(.*) live=\[(.*)\] at=\[(.*)\] cn=\[(.*?)\](?: calls=\[(.*)\])?$", line)
     reqs = op["reqs"]
     if not m or len(m.group(1).split(";")) != len(reqs):
         return [("C05:vforms:unparsable-output", line[:200])]
@@ -243,6 +244,9 @@ def vforms_oracle(op, line, facts):
     where = "vci:" + op.get("backend", "?")
     ttl = facts.get("vciTokenTTL", 10**9)   # absent fact (extractor could not read a mutated source): the after-ttl oracle cannot be evaluated
     live = set(filter(None, m.group(2).split(",")))
+    calls = [x.split(",") if x else [] for x in m.group(5).split(";")] if m.group(5) is not None else None
+    if calls is not None and len(calls) != len(reqs):
+        return [("C05:vforms:unparsable-output", line[:200])]
     now, t = 0, []
     for r in reqs:
         now += r.get("dt", 0) if op.get("backend") == "redis" else 0
@@ -262,6 +266,13 @@ def vforms_oracle(op, line, facts):
                 attempts[r["code"]] = []
             continue
         c = r["code"]
+        if calls is not None:
+            cs = calls[j]
+            # the token endpoint looks a code up at most once per request, and an honoured request consumed it itself (Get, then Delete)
+            if cs.count("get:preauth/" + c) > 1:
+                bad.append((f"C05:preauth:{where}:vform-code-read-twice", f"request {j} read pre-authorized code {c!r} {cs.count('get:preauth/' + c)} times: {cs}"))
+            if a.startswith("200:") and not (("get:preauth/" + c) in cs and ("del:preauth/" + c) in cs[cs.index("get:preauth/" + c) + 1:]):
+                bad.append((f"C05:preauth:{where}:vform-honoured-without-consuming", f"request {j} was honoured; its store calls {cs} do not read and then delete code {c!r}"))
         if a.startswith("200:"):
             fl = a[4:]
             honoured_flows.append(fl)
